@@ -3841,7 +3841,7 @@ static int fold_constants_for_binop (
 
 			case HAWK_BINOP_IDIV:
 				folded->l = (hawk_int_t)
-					(((hawk_nde_int_t*)left)->val /
+					(((hawk_nde_flt_t*)left)->val /
 					 (hawk_flt_t)((hawk_nde_int_t*)right)->val);
 				fold = HAWK_NDE_INT;
 				break;
